@@ -12,6 +12,7 @@ use std::collections::BTreeMap;
 
 pub mod c03;
 pub mod c04;
+pub mod c06;
 pub mod c14;
 pub mod c15;
 
@@ -565,6 +566,7 @@ pub fn lookup(id: &str) -> Option<Box<dyn Property>> {
     match id {
         "C03" => Some(Box::new(c03::C03)),
         "C04" => Some(Box::new(c04::C04)),
+        "C06" => Some(Box::new(c06::C06)),
         "C14" => Some(Box::new(c14::C14)),
         "C15" => Some(Box::new(c15::C15)),
         _ => None,
